@@ -211,6 +211,8 @@ void vf_probe_note(uint64_t n, uint64_t c0, uint64_t c1, uint64_t c2, uint64_t c
 uint64_t vf_probe_calls() { return g_probe.size(); }
 uint64_t vf_probe_arg(uint64_t call, uint64_t k) { return call < g_probe.size() ? g_probe[call][k] : 0; }
 void vf_probe_reset() { g_probe.clear(); }
+void vf_probe_note_r(uint64_t n, double c0, double c1, double c2, double c3, double c4) { rt_scope _r; g_probe.push_back({n, dbits(c0), dbits(c1), dbits(c2), dbits(c3), dbits(c4)}); }
+double vf_probe_arg_r(uint64_t call, uint64_t k) { return call < g_probe.size() ? vf_bits<double>(g_probe[call][k]) : 0.0; }
 
 void vf_share(const void *) {}
 void vf_region_begin(int) {}
